@@ -1171,3 +1171,114 @@ def replay(rep):  # noqa: F811
         print('replay: %s' % ('violation reproduced on the real code' if bad else 'not reproduced'))
         return 1 if bad else 0
     return _rp12(rep)
+
+
+# ---- loader (C13): definition texts loaded on top of the bundled database (bounded stand-in / replay) ----
+def _cycle(n, kind):
+    names = ['zc%s%d' % (kind[0], i) for i in range(n)]
+    lines = []
+    for i, nm in enumerate(names):
+        nxt = names[(i + 1) % n]
+        if kind == 'unit':
+            lines.append('%s 2 %s' % (nm, nxt))
+        elif kind == 'prefix':
+            lines.append('%s- 2 %s' % (nm, nxt))
+        elif kind == 'quantity':
+            lines.append('%s ? %s' % (nm, nxt))
+        elif kind == 'substance':
+            lines.append('%s {\n p%d const q%d 2 %s m\n}' % (nm, i, i, nxt))
+    return '\n'.join(lines) + '\n'
+
+
+def _loader_cases():
+    c = []
+    for kind in ('unit', 'prefix', 'quantity', 'substance'):
+        for n in (1, 2, 3, 50, 400):
+            c.append((_cycle(n, kind), 'cycle'))
+    c.append(('zmix 2 zmixq m\nzmixq {\n p const q 2 zmix m\n}\n', 'cycle'))
+    # odd ends of input and malformed text: any result, but a result
+    for t in ['"ba\\', '"unterminated', 'zfoo 2 m\n"ba\\', 'zfoo 2 m\n!include extra.units', 'zfoo 2 m\n! (', '!', '!category', '!category x', '!symbol a', 'zs {', 'zs {\n p', 'zs {\n p const',
+              'zs {\n p const q', 'zs {\n p q 1 m /', 'zs {\n p q 1 m / r', '??', '?? doc', 'za 1 +', 'za (', 'za ((((', 'za 1|', 'za 2^', 'za -', 'za /', 'za 1 of', 'za x of', 'zp- ', 'zp-- ', 'zq ?', 'zq ? (',
+              '\\', '\\\r', '\\\r\n', 'za 1e', 'za 1e-', 'za .', 'za 1.e5', '# c', 'za 1 # c', 'za\t2\tm', '}', '{', ') ) )', 'za 1|0', 'za- 1|0', 'za- 0^-1', 'za 0^-1', 'zq ? length^-3 time',
+              'zb !\nzb !', 'zu 2 m\nzu 3 m', 'zs {\n d const v 0 kg\n}', 'zs {\n d mass 1 kg / volume 0 m^3\n}', 'zs {\n d mass 1 kg / volume 1 s\n d mass 2 kg / volume 1 s\n}']:
+        c.append((t, 'any'))
+        c.append((t + '\n', 'any'))
+    c.append(('zgood 3 m\nzbad 2 znothing\nzalso 2 zgood\n', 'partial'))
+    return c
+
+
+def _loader_run(text, queries, timeout=30):
+    rc, so, se, dt = run([QUERY_BIN, '--defs', text] + queries, timeout=timeout)
+    return rc, so, se
+
+
+def _loader_witness():
+    if build_core() != 0:
+        return None
+    from concurrent.futures import ThreadPoolExecutor as _TPE
+
+    def one(case):
+        text, kind = case
+        rc, so, se = _loader_run(text, ['2 km -> m', 'zgood', 'zalso'] if kind == 'partial' else ['2 km -> m'])
+        first = ([l for l in so.splitlines() if l.startswith('load_definitions:')] or [''])[0]
+        if rc == 124:
+            return (text, 'loading does not return within 30 s')
+        if rc not in (0, 1) or 'PANIC' in so or not first.startswith('load_definitions:'):
+            return (text, 'loading aborts: status %s %s' % (rc, one_line(se or so, 200)))
+        if '2000 meter' not in so:
+            return (text, 'after loading, `2 km -> m` no longer answers 2000 meter: %s' % one_line(so, 200))
+        if kind == 'cycle' and 'dependency cycle' not in first:
+            return (text, 'the dependency cycle is not reported: %s' % one_line(first, 200))
+        if kind == 'partial':
+            if 'Err(' not in first or 'znothing' not in first:
+                return (text, 'the unresolved name is not reported: %s' % one_line(first, 200))
+            if '3 meter' not in so or '6 meter' not in so:
+                return (text, 'definitions that did load do not answer: %s' % one_line(so, 300))
+        return None
+    cases = _loader_cases()
+    with _TPE(max_workers=12) as ex:
+        for r in ex.map(one, cases):
+            if r:
+                return {'replayer': 'loader', 'input': {'definitions': r[0], 'expected': 'loading returns, reports its problems, and the context still answers'}, 'output': r[1],
+                        'why': 'definitions text %r: %s' % (r[0][:120], r[1]), 'cmd': '%s --defs %r %r' % (QUERY_BIN, r[0][:200], '2 km -> m')}
+    return None
+
+
+_sf13 = search_family
+
+
+def search_family(fam, prop):  # noqa: F811
+    if fam == 'loader':
+        return _loader_witness()
+    return _sf13(fam, prop)
+
+
+_fw14 = find_witness
+
+
+def find_witness(o, rep):  # noqa: F811
+    slot = o.get('slot') or ''
+    if slot.startswith('gnu::') or slot.startswith('Resolver::') or o.get('unit') in ('gnuloader', 'resolver'):
+        w = _loader_witness()
+        if w:
+            return w
+    return _fw14(o, rep)
+
+
+_rp14 = replay
+
+
+def replay(rep):  # noqa: F811
+    w = rep.get('replay') or {}
+    if w.get('replayer') == 'loader':
+        if build_core() != 0:
+            return 0
+        text = rep['input']['definitions']
+        rc, so, se = _loader_run(text, ['2 km -> m'])
+        print('definitions: %r' % text[:300])
+        print(so[:1500] if rc != 124 else 'TIMEOUT')
+        w2 = _loader_witness()
+        bad = bool(w2 and w2['input']['definitions'] == text)
+        print('replay: %s' % ('violation reproduced on the real code' if bad else 'not reproduced'))
+        return 1 if bad else 0
+    return _rp14(rep)
